@@ -20,7 +20,7 @@ Inductive h3frame :=
 
 Inductive h3err :=
 | H3EOF                        (* io.EOF: the reader ran dry - between two frames, or (control streams / first frame of a
-                                  response, bodyStream = false) anywhere; always inside a SETTINGS payload *)
+                                  response, bodyStream = false) anywhere *)
 | H3UnexpectedEOF              (* io.ErrUnexpectedEOF: a message-body stream (bodyStream = true) ended inside a frame *)
 | H3Reserved (t : N)           (* "http3: reserved frame type" + conn.CloseWithError(H3_FRAME_UNEXPECTED) *)
 | H3SettingsTooLarge (l : N)   (* "unexpected size for SETTINGS frame" *)
@@ -87,6 +87,14 @@ Definition h3_parse_settings_frame (input : bytes) (l : N) : h3res h3frame * byt
 (* frameParser.truncated: the error for a stream that ended inside a frame *)
 Definition trunc_err (body : bool) : h3err := if body then H3UnexpectedEOF else H3EOF.
 
+(* the SETTINGS arm of ParseNext (after /repo 1ee29a3): parseSettingsFrame reports its own short
+   read - and a varint torn inside the payload - as io.EOF; that is a truncated frame like any other *)
+Definition h3_settings_arm (body : bool) (x : h3res h3frame * bytes) : h3res h3frame * bytes :=
+  match x with
+  | (H3Err H3EOF, r) => (H3Err (trunc_err body), r)
+  | _ => x
+  end.
+
 (* frameParser.ParseNext (body = the bodyStream flag): result and what is left in the reader (for
    DATA / HEADERS the payload is NOT consumed).  One turn per frame skipped; the byte counter that
    tells "ended between two frames" from "ended inside the frame type" starts afresh every turn. *)
@@ -102,7 +110,7 @@ Fixpoint h3_parse_next_fuel (body : bool) (fuel : nat) (input : bytes) : h3res h
       | Some (l, r2) =>
         if t =? h3FrameData then (H3Ok (H3Data l), r2)
         else if t =? h3FrameHeaders then (H3Ok (H3Headers l), r2)
-        else if t =? h3FrameSettings then h3_parse_settings_frame r2 l
+        else if t =? h3FrameSettings then h3_settings_arm body (h3_parse_settings_frame r2 l)
         else if memN t h3ReservedTypes then (H3Err (H3Reserved t), r2)
         else if lenN r2 <? l then (H3Err (trunc_err body), [])        (* io.CopyN: short -> io.EOF -> truncated *)
         else h3_parse_next_fuel body f (skipn (N.to_nat l) r2)
